@@ -78,8 +78,32 @@ class Ctx:
         return total - (time.time() - self.t0)
 
     # ---------------------------------------------------------------- harness
-    def vh_binary(self, race=False, pkg="vh"):
-        key = pkg + ("-race" if race else "-plain")
+    def instrumented_repo(self, patch):
+        """A scratch copy of the goNEAT tree under check (its CURRENT working tree) with the instrumentation patch applied
+        (build-tag guarded hook lines that are deliberately NOT kept in /repo itself: they sit in the middle of the functions
+        most likely to be edited).  Returns the directory, or None when the patch does not apply in full - the code at the hook
+        sites was changed; the caller then skips the stage that needs the hooks.  Removed by cleanup()."""
+        if "instrumented" in self._vh:
+            return self._vh["instrumented"]
+        d = os.path.join("/tmp", "verif-instr-%d-%s" % (os.getpid(), self.prop))
+        shutil.rmtree(d, ignore_errors=True)
+        src = os.path.realpath(REPO)
+        p = subprocess.run(["rsync", "-a", "--exclude", ".git", "--exclude", "/out", "--exclude", "/contents", src + "/", d + "/"],
+                           capture_output=True, text=True)
+        if p.returncode != 0:
+            raise Infra("cannot copy the goNEAT tree for instrumentation: %s" % p.stderr[-500:])
+        self._instr_dir = d
+        p = subprocess.run(["patch", "-p1", "--fuzz=0", "--no-backup-if-mismatch", "-s", "-i", patch], cwd=d, capture_output=True, text=True)
+        if p.returncode != 0:
+            self.extra["instrumentation"] = "hook patch does not apply to this tree (code at the hook sites changed): " + (p.stdout + p.stderr)[-300:]
+            shutil.rmtree(d, ignore_errors=True)
+            self._vh["instrumented"] = None
+            return None
+        self._vh["instrumented"] = d
+        return d
+
+    def vh_binary(self, race=False, pkg="vh", repo=None):
+        key = pkg + ("-race" if race else "-plain") + ("-instr" if repo else "")
         if key in self._vh:
             return self._vh[key]
         env = dict(os.environ, **GOENV)
@@ -102,17 +126,17 @@ class Ctx:
         os.makedirs(os.path.join(CACHE, "bin"), exist_ok=True)
         out = os.path.join(CACHE, "bin", "vh-%s-%d" % (key, os.getpid()))
         modflag = []
-        if ALT:
-            # a scratch copy of goNEAT (VERIF_REPO): same harness module with the replace directive pointing there
-            alt = os.path.join(CACHE, "bin", "alt-%d.mod" % os.getpid())
+        if ALT or repo:
+            # a scratch copy of goNEAT (VERIF_REPO / instrumented copy): same harness module with the replace directive pointing there
+            alt = os.path.join(CACHE, "bin", "alt-%d%s.mod" % (os.getpid(), "-instr" if repo else ""))
             with open(os.path.join(HARNESS, "go.mod")) as f:
-                mod = f.read().replace("=> /repo", "=> " + os.path.realpath(REPO))
+                mod = f.read().replace("=> /repo", "=> " + os.path.realpath(repo or REPO))
             with open(alt, "w") as f:
                 f.write(mod)
             shutil.copy(os.path.join(REPO, "go.sum"), alt[:-4] + ".sum")
             modflag = ["-modfile=" + alt]
-            self._vh["altmod"] = alt
-            self._vh["altsum"] = alt[:-4] + ".sum"
+            self._vh["altmod" + ("-instr" if repo else "")] = alt
+            self._vh["altsum" + ("-instr" if repo else "")] = alt[:-4] + ".sum"
         cmd = ["go", "build", "-tags", "verif"] + modflag + (["-race"] if race else []) + ["-o", out, "./cmd/" + pkg]
         p = subprocess.run(cmd, cwd=HARNESS, env=env, capture_output=True, text=True)
         if p.returncode != 0:
@@ -120,14 +144,14 @@ class Ctx:
         self._vh[key] = out
         return out
 
-    def vh(self, args, race=False, timeout=1800, env=None, expect_report=None, stdin=None, pkg="vh"):
+    def vh(self, args, race=False, timeout=1800, env=None, expect_report=None, stdin=None, pkg="vh", repo=None):
         """Run a harness command. Returns (exit code, report dict or None, stdout+stderr)."""
         e = dict(os.environ)
         e["VERIF_SEED"] = str(self.seed)
         if env:
             e.update(env)
         try:
-            p = subprocess.run([self.vh_binary(race, pkg)] + args, cwd=self.work, env=e, capture_output=True,
+            p = subprocess.run([self.vh_binary(race, pkg, repo)] + args, cwd=self.work, env=e, capture_output=True,
                                text=True, timeout=timeout, input=stdin)
         except subprocess.TimeoutExpired:
             raise Infra("harness command timed out: vh %s" % " ".join(args))
@@ -143,11 +167,16 @@ class Ctx:
         return p.returncode, rep, p.stdout + p.stderr
 
     def drop_binaries(self):
-        for b in self._vh.values():
+        for k, b in self._vh.items():
+            if k == "instrumented" or not b:
+                continue
             try:
                 os.remove(b)
             except OSError:
                 pass
+        d = getattr(self, "_instr_dir", None)
+        if d:
+            shutil.rmtree(d, ignore_errors=True)
 
     # ---------------------------------------------------------------- TLC
     def tlc(self, module, cfg=None, env=None, workers=None, timeout=900, simulate=None, depth=None,
